@@ -36,6 +36,17 @@ def build_all(cfg, state):
             try:
                 state["facts"] = vcore.regen_consts(ov, cfg["groups"])
                 getattr(cfg["mod"], "regen_facts", lambda st: None)(state)
+                if prop in vcore.GO2LEAN:
+                    # regenerated definitions (DESIGN §12.7): a function the translator refuses is a broken tie
+                    tr = vcore.regen_go2lean()
+                    for m in vcore.GO2LEAN[prop]:
+                        for unit, lean, why in tr.get(m, []):
+                            if why is None:
+                                state["facts"]["go2lean:%s:%s" % (m, unit)] = lean
+                            else:
+                                problems.append(("proof", "translator no longer covers %s (tools/go2lean, %s): %s" % (unit, m, why),
+                                                 "error: tie broken: the Go function is outside the translated fragment; its tie theorem in "
+                                                 "lean/Emitter/Props/Tie/ is no longer about the source\n" + why))
             except BuildError as e:
                 problems.append(("fatal", "constants extraction (hook) no longer builds: " + e.what, e.log))
                 return problems
@@ -45,7 +56,7 @@ def build_all(cfg, state):
                 return problems
             ok, log = vcore.lake_build(["Emitter.Props." + prop])
             if not ok:
-                problems.append(("proof", "lake build Emitter.Props.%s failed" % prop, log))
+                problems.append(("proof", ("lake build Emitter.Props.%s failed %s" % (prop, broken_theorems(log))).strip(), log))
             else:
                 names, okn, bad, out = vcore.audit(prop)
                 state["obligations"], state["discharged"] = names, okn
@@ -69,7 +80,26 @@ def build_all(cfg, state):
 def theorem_in_log(log):
     import re
     m = re.search(r"error: ([^\n]*)", log)
-    return m.group(1)[:300] if m else ""
+    return (broken_theorems(log) + " " + m.group(1)[:300]).strip() if m else ""
+
+
+def broken_theorems(log):
+    """names of the declarations that enclose the error positions of a lake log ("error: <file>:<line>:<col>: ...")"""
+    import re
+    names = []
+    for m in re.finditer(r"error: (\S+\.lean):(\d+):\d+", log):
+        try:
+            src = open(os.path.join(LEAN, m.group(1))).read().split("\n")
+        except OSError:
+            continue
+        for i in range(min(int(m.group(2)), len(src)) - 1, -1, -1):
+            d = re.match(r"\s*(?:private |protected )?(?:theorem|lemma|def|example|instance)\s+(\S+)", src[i])
+            if d:
+                n = "%s (%s:%d)" % (d.group(1), m.group(1), i + 1)
+                if n not in names:
+                    names.append(n)
+                break
+    return ("broken: " + ", ".join(names[:6])) if names else ""
 
 
 def main():
@@ -167,6 +197,9 @@ def main():
             note = {"viol-impl": "implementation differs from the model AND from the spec on this input",
                     "viol-model": "implementation and model agree, both differ from the spec (no known finding covers it)",
                     "corr": "correspondence broken: implementation differs from the model but meets the spec on every input searched"}[kind]
+            for pb in proof_broken[:3]:
+                # the proof stage of this run already failed: name the theorem next to the failing input
+                note += "\nproof stage of this run: " + pb[1]
             if not recurs:
                 # timing / schedule dependent: the re-run of the (shrunk) session agreed; report what was observed
                 small_res = sr
